@@ -116,3 +116,63 @@ Proof.
   exact (conj (g_qwt512_rank_unchecked_new w s t Hw HF Hn E) (g_qwt512_select_unchecked_new w s t Hw HF Hn E)).
 Qed.
 Print Assumptions C01_source_unchecked_512.
+
+(* ---- the CONSTRUCTORS regenerated from src/quadwt/mod.rs on every run (T5, Gen/FnsQwtnew.v: QWaveletTree::new as it is
+   written — max, msb, per level a QVectorBuilder filled by push, RS::from, stable_partition_of_4, the shift update — and the
+   thin From<Vec<T>> / FromIterator wrappers), with everything they call regenerated too (g_msb, g_stable_partition_of_4,
+   g_qvb_*, g_rsqNNN_from with g_rssNNN_new below it): [qwtNNN_ctor k] is one of the three public construction paths.
+   Every path, followed by the regenerated queries, is the list specification: no hand-model function occurs in the
+   statements. *)
+From QwtModel Require Import Loops FnsQwtnew FnsWrapQwtOk.
+Theorem C01_source_constructors_256 : forall k w s, width_ok w -> Forall (fun x => x < 2 ^ w) s -> len s < RSQ_MAXN ->
+  exists n nl sg d p sb sm oc,
+    qwt256_ctor k w s = Val (n, nl, sg, d, p, sb, sm, oc) /\
+    g_qwt256_len n = Val (len s) /\ g_qwt256_is_empty n = Val (len s =? 0) /\
+    g_qwt256_n_levels nl = Val (if len s =? 0 then 0 else (msb (maxN s) + 1 + 1) / 2) /\
+    (forall i, g_qwt256_get w n nl d p sb oc i = Val (nthN s i)) /\
+    (forall c i, c < 2 ^ w ->
+       g_qwt256_rank w n nl sg d sb oc c i
+       = Val (if negb (len s =? 0) && (i <=? len s) && (c <=? maxN s) then Some (rank_spec s c i) else None)) /\
+    (forall c k fuel, c < 2 ^ w -> k < 2 ^ 64 -> (S (S (N.to_nat (len s / (8 * 256)))) <= fuel)%nat ->
+       g_qwt256_select fuel w n nl sg d p sb sm oc c k
+       = Val (if negb (len s =? 0) && (c <=? maxN s) then select_spec s c k else None)) /\
+    (forall i x, nthN s i = Some x -> g_qwt256_get_unchecked w nl d p sb oc i = Val x) /\
+    (forall c i, 0 < len s -> c <= maxN s -> i <= len s ->
+       g_qwt256_rank_unchecked w nl d sb oc c i = Val (rank_spec s c i)) /\
+    (forall c k p' fuel, c < 2 ^ w -> select_spec s c k = Some p' ->
+       (S (S (N.to_nat (len s / (8 * 256)))) <= fuel)%nat ->
+       g_qwt256_select_unchecked fuel w n nl sg d p sb sm oc c k = Val p').
+Proof. exact g_qwt256_ctors_correct. Qed.
+Print Assumptions C01_source_constructors_256.
+Theorem C01_source_constructors_512 : forall k w s, width_ok w -> Forall (fun x => x < 2 ^ w) s -> len s < RSQ_MAXN ->
+  exists n nl sg d p sb sm oc,
+    qwt512_ctor k w s = Val (n, nl, sg, d, p, sb, sm, oc) /\
+    g_qwt512_len n = Val (len s) /\ g_qwt512_is_empty n = Val (len s =? 0) /\
+    g_qwt512_n_levels nl = Val (if len s =? 0 then 0 else (msb (maxN s) + 1 + 1) / 2) /\
+    (forall i, g_qwt512_get w n nl d p sb oc i = Val (nthN s i)) /\
+    (forall c i, c < 2 ^ w ->
+       g_qwt512_rank w n nl sg d sb oc c i
+       = Val (if negb (len s =? 0) && (i <=? len s) && (c <=? maxN s) then Some (rank_spec s c i) else None)) /\
+    (forall c k fuel, c < 2 ^ w -> k < 2 ^ 64 -> (S (S (N.to_nat (len s / (8 * 512)))) <= fuel)%nat ->
+       g_qwt512_select fuel w n nl sg d p sb sm oc c k
+       = Val (if negb (len s =? 0) && (c <=? maxN s) then select_spec s c k else None)) /\
+    (forall i x, nthN s i = Some x -> g_qwt512_get_unchecked w nl d p sb oc i = Val x) /\
+    (forall c i, 0 < len s -> c <= maxN s -> i <= len s ->
+       g_qwt512_rank_unchecked w nl d sb oc c i = Val (rank_spec s c i)) /\
+    (forall c k p' fuel, c < 2 ^ w -> select_spec s c k = Some p' ->
+       (S (S (N.to_nat (len s / (8 * 512)))) <= fuel)%nat ->
+       g_qwt512_select_unchecked fuel w n nl sg d p sb sm oc c k = Val p').
+Proof. exact g_qwt512_ctors_correct. Qed.
+Print Assumptions C01_source_constructors_512.
+Theorem C01_source_new_fields_256 : forall wT seq t, width_ok wT -> Forall (fun x => x < 2 ^ wT) seq -> len seq < RSQ_MAXN ->
+  qwt_new wT 256 seq = Val t ->
+  exists seq', g_qwt256_new wT seq = Val (seq', (q_n t, q_n_levels t, q_sigma t, qwt_data t, qwt_pos t, qwt_sbs t, qwt_samples t, qwt_occs t))
+    /\ Permutation.Permutation seq seq'.
+Proof. exact g_qwt256_new_sim_closed. Qed.
+Print Assumptions C01_source_new_fields_256.
+Theorem C01_source_new_fields_512 : forall wT seq t, width_ok wT -> Forall (fun x => x < 2 ^ wT) seq -> len seq < RSQ_MAXN ->
+  qwt_new wT 512 seq = Val t ->
+  exists seq', g_qwt512_new wT seq = Val (seq', (q_n t, q_n_levels t, q_sigma t, qwt_data t, qwt_pos t, qwt_sbs t, qwt_samples t, qwt_occs t))
+    /\ Permutation.Permutation seq seq'.
+Proof. exact g_qwt512_new_sim_closed. Qed.
+Print Assumptions C01_source_new_fields_512.
